@@ -608,6 +608,9 @@ pub fn c05(tier: &str, seed: u64) -> i32 {
     }
     crate::props_c08::seeded_runs(&mut ctx, "C05", O_DEC | O_DEC_CONTENTS, clauses, true);
     if ctx.run.violations.is_empty() {
+        crate::props_f::edge_sweep(&mut ctx, "C05");
+    }
+    if ctx.run.violations.is_empty() {
         let t = ctx.thorough();
         crate::engine_c::sync_point_pass(&mut ctx, "C05", if t { 5 } else { 4 }, if t { 200.0 } else { 15.0 });
     }
@@ -820,6 +823,9 @@ pub fn c06(tier: &str, seed: u64) -> i32 {
         ];
         crate::props_c08::seeded_group(&mut ctx, "C06", o, clauses, 2, vec![3, 200], &specs, 60_000, 10.0);
         three_key_seeds(&mut ctx, "C06", o, clauses, 3.0);
+        if ctx.run.violations.is_empty() {
+            crate::props_f::edge_sweep(&mut ctx, "C06");
+        }
     }
     let rule = format!("{RULE_A}; on every state: slots tile .key/.val from 192 to EOF, every slot live-once xor free-once, free lists acyclic and class-correct, statistics calls terminate; on every transition: a file grows only if no slot that was free before and after the call is suitable (same class below 1024, any member >= the size on the shared list), and the slot count per slot size stays <= keys+1; closure reached = the reachable image set (hence file size) is finite over all histories of the alphabet; non-trivial = transitions after which a file grew plus states with a non-empty free list");
     ctx.finish_model_checking(&rule, &["key_file_grew", "val_file_grew", "states_with_nonempty_free_list"])
